@@ -681,6 +681,30 @@ func expandRet(r *ssa.Return, vals []ssa.Value, at *ssa.BasicBlock, facts []Cond
 			hasPhi = true
 		}
 	}
+	if !hasPhi && depth <= 3 {
+		// a result held in a local cell that several stores can reach (named results, `var err error`)
+		for k, v := range vals {
+			u, isU := v.(*ssa.UnOp)
+			if !isU || u.Op != token.MUL {
+				continue
+			}
+			if Resolve(v) != v {
+				continue // uniquely resolvable
+			}
+			cases := cellCases(u)
+			if len(cases) < 2 {
+				continue
+			}
+			for _, cc := range cases {
+				nv := append([]ssa.Value{}, vals...)
+				nv[k] = cc.Val
+				nf := append(append([]Cond{}, facts...), cc.Facts...)
+				nvia := append([]*ssa.BasicBlock{cc.At}, via...)
+				expandRet(r, nv, cc.At, nf, nvia, depth+1, out)
+			}
+			return
+		}
+	}
 	if !hasPhi || depth > 3 || len(at.Preds) > 16 {
 		*out = append(*out, RetCase{Ret: r, Vals: vals, Facts: facts, Via: via})
 		return
@@ -697,4 +721,125 @@ func expandRet(r *ssa.Return, vals []ssa.Value, at *ssa.BasicBlock, facts []Cond
 		nf := append(append([]Cond{}, facts...), EdgeFactsOn(pred, at)...)
 		expandRet(r, nv, pred, nf, nvia, depth+1, out)
 	}
+}
+
+// cellCases enumerates, for a load of a private local cell that several stores can reach, each reaching
+// store together with the facts that hold when it is the one observed: the facts at the store plus the
+// branch decisions that every store-to-load path avoiding the other stores has to take.
+type cellCase struct {
+	Val   ssa.Value
+	Facts []Cond
+	At    *ssa.BasicBlock
+}
+
+func cellCases(load *ssa.UnOp) []cellCase {
+	a, ok := load.X.(*ssa.Alloc)
+	if !ok || load.Op != token.MUL || !privateCell(a) {
+		return nil
+	}
+	stores := Stores(a)
+	if len(stores) < 2 {
+		return nil
+	}
+	pos := func(ins ssa.Instruction) int {
+		for i, x := range ins.Block().Instrs {
+			if x == ins {
+				return i
+			}
+		}
+		return -1
+	}
+	lb, lpos := load.Block(), pos(load)
+	var out []cellCase
+	for _, s := range stores {
+		// self re-store of the value just loaded (`return err` with named results) is not a definition
+		if u, isU := s.Val.(*ssa.UnOp); isU && u.Op == token.MUL && u.X == ssa.Value(a) {
+			continue
+		}
+		sb, spos := s.Block(), pos(s)
+		// killed inside its own block?
+		killed := false
+		for _, t := range stores {
+			if t != s && t.Block() == sb && pos(t) > spos && !(sb == lb && pos(t) > lpos) {
+				if u, isU := t.Val.(*ssa.UnOp); isU && u.Op == token.MUL && u.X == ssa.Value(a) {
+					continue
+				}
+				killed = true
+			}
+		}
+		if killed {
+			continue
+		}
+		if sb == lb && spos < lpos {
+			out = append(out, cellCase{s.Val, EdgeFacts(sb), sb})
+			continue
+		}
+		// kill blocks: blocks holding another (real) store
+		kill := map[*ssa.BasicBlock]bool{}
+		for _, t := range stores {
+			if t == s {
+				continue
+			}
+			if u, isU := t.Val.(*ssa.UnOp); isU && u.Op == token.MUL && u.X == ssa.Value(a) {
+				continue
+			}
+			if t.Block() == lb && pos(t) > lpos {
+				continue
+			}
+			kill[t.Block()] = true
+		}
+		if kill[lb] {
+			// another store precedes the load in the load's block: s cannot be observed
+			continue
+		}
+		// forward from sb (excluding kill blocks), backward from lb
+		fwd := map[*ssa.BasicBlock]bool{}
+		var f func(b *ssa.BasicBlock)
+		f = func(b *ssa.BasicBlock) {
+			for _, n := range b.Succs {
+				if !fwd[n] && !kill[n] {
+					fwd[n] = true
+					if n != lb {
+						f(n)
+					}
+				}
+			}
+		}
+		f(sb)
+		if !fwd[lb] {
+			continue
+		}
+		bwd := map[*ssa.BasicBlock]bool{lb: true}
+		var g func(b *ssa.BasicBlock)
+		g = func(b *ssa.BasicBlock) {
+			for _, n := range b.Preds {
+				if !bwd[n] && (fwd[n] || n == sb) && !kill[n] {
+					bwd[n] = true
+					if n != sb {
+						g(n)
+					}
+				}
+			}
+		}
+		g(lb)
+		facts := append([]Cond{}, EdgeFacts(sb)...)
+		for b := range bwd {
+			if b == lb && b != sb {
+				continue
+			}
+			if !(b == sb || fwd[b]) || len(b.Succs) != 2 || b.Succs[0] == b.Succs[1] {
+				continue
+			}
+			iff, isIf := b.Instrs[len(b.Instrs)-1].(*ssa.If)
+			if !isIf {
+				continue
+			}
+			t, e := bwd[b.Succs[0]] && fwd[b.Succs[0]], bwd[b.Succs[1]] && fwd[b.Succs[1]]
+			if t != e {
+				facts = append(facts, expandCond(Cond{iff.Cond, t, iff}, 0)...)
+			}
+		}
+		out = append(out, cellCase{s.Val, facts, sb})
+	}
+	return out
 }
